@@ -271,12 +271,30 @@ pub(crate) fn render_empty_stat(root: &LuaSyntaxNode, syntax_id: LuaSyntaxId) ->
     vec![ir::source_node_trimmed(node)]
 }
 
-pub(crate) fn render_break_stat(_root: &LuaSyntaxNode, _syntax_id: LuaSyntaxId) -> Vec<DocIR> {
-    vec![ir::syntax_token(LuaTokenKind::TkBreak)]
+pub(crate) fn render_break_stat(
+    ctx: &FormatContext,
+    root: &LuaSyntaxNode,
+    syntax_id: LuaSyntaxId,
+    plan: &FormatPlan,
+) -> Vec<DocIR> {
+    let mut docs = vec![ir::syntax_token(LuaTokenKind::TkBreak)];
+    if let Some(node) = find_node_by_id(root, syntax_id) {
+        append_trailing_statement_suffix(ctx, plan, &mut docs, &node);
+    }
+    docs
 }
 
-pub(crate) fn render_continue_stat(_root: &LuaSyntaxNode, _syntax_id: LuaSyntaxId) -> Vec<DocIR> {
-    vec![ir::syntax_token(LuaTokenKind::TkContinue)]
+pub(crate) fn render_continue_stat(
+    ctx: &FormatContext,
+    root: &LuaSyntaxNode,
+    syntax_id: LuaSyntaxId,
+    plan: &FormatPlan,
+) -> Vec<DocIR> {
+    let mut docs = vec![ir::syntax_token(LuaTokenKind::TkContinue)];
+    if let Some(node) = find_node_by_id(root, syntax_id) {
+        append_trailing_statement_suffix(ctx, plan, &mut docs, &node);
+    }
+    docs
 }
 
 fn format_local_stat_trivia_aware(
